@@ -69,6 +69,13 @@ def run_ngrams(cfg):
         ref2 = parent(ngram_range=rng2)._word_ngrams(list(tokens), stop)
         ok2 = all(isinstance(g, tuple) and all(isinstance(t, str) for t in g) for g in ours2)
         e.prove(ok2 and [" ".join(g) for g in ours2] == list(ref2), "same-ngram-sequence-after-set_params(ngram_range)")
+        # history: the object was fitted before (scikit-learn leaves vocabulary_ in place until the next fit ends);
+        # the analyzer of the new fit must not look at it
+        vec3, ref3 = cls(ngram_range=(mn, mx)), parent(ngram_range=(mn, mx))
+        vec3.vocabulary_, ref3.vocabulary_ = {(words[0],): 0}, {words[0]: 0}
+        ours3 = vec3._word_ngrams(list(tokens), stop)
+        ok3 = all(isinstance(g, tuple) and all(isinstance(t, str) for t in g) for g in ours3)
+        e.prove(ok3 and [" ".join(g) for g in ours3] == list(ref3._word_ngrams(list(tokens), stop)), "same-ngram-sequence-on-a-previously-fitted-object(stale-vocabulary_)")
 
     eng = sx.Engine(name=f"C14{cfg}")
     eng.stop_on_cex = False
@@ -132,6 +139,16 @@ def replay(cfg, inputs, label):
             Ma, Mb = a.fit_transform(corpus), b.fit_transform(corpus)
             if Ma.shape != Mb.shape or abs(Ma - Mb).sum() > 1e-12:
                 return True, dict(history=f"fit with ngram_range={kw['ngram_range']}, set_params(ngram_range={rng2}), fit again", traceable_shape=list(Ma.shape), sklearn_shape=list(Mb.shape))
+        except ValueError:
+            pass
+    if label.startswith("same-ngram-sequence-on-a-previously-fitted-object"):
+        # history on the real vectorizers: fit on one corpus, fit again on another
+        a, b = cls(**kw), parent(**kw)
+        try:
+            a.fit(["aa", "zz yy"])
+            Ma, Mb = a.fit_transform(corpus), b.fit_transform(corpus)
+            if Ma.shape != Mb.shape or abs(Ma - Mb).sum() > 1e-12 or len(a.vocabulary_) != len(b.vocabulary_):
+                return True, dict(history="fit(['aa', 'zz yy']) then fit_transform(corpus) on the same object", corpus=corpus, traceable_shape=list(Ma.shape), sklearn_shape=list(Mb.shape), tr_vocabulary=[str(k) for k in sorted(a.vocabulary_, key=str)], sk_vocabulary=sorted(b.vocabulary_))
         except ValueError:
             pass
     if cfg["stop"]:
